@@ -383,7 +383,21 @@ def oracle_c10(ent, d):
             if v != default and v is not None and v != ():
                 setattr(c2, key, v)
                 active = True
-        if not active:
+        if not active or (key == "qcut" and str(cfg.qcut) == "0"):   # '-q 0' switches the step off (as '-Q 0' is documented to)
+            continue
+        if key in ("nextseq", "qcut") and not cfg.fasta and all(q is not None for _, _, q in cur):
+            # the two quality stages are computed from the rule itself (suffix sums as in the property text), not by a run
+            from .props import c13 as rule
+            nxt = []
+            for nm, sq, ql in cur:
+                if key == "nextseq":
+                    a, b = 0, rule.spec_3p([(cfg.nextseq - 1) if bb == "G" else (ord(x) - cfg.qbase) for bb, x in zip(sq, ql)], cfg.nextseq)
+                else:
+                    parts = [int(x) for x in str(cfg.qcut).split(",")]
+                    cf, cb = (0, parts[0]) if len(parts) == 1 else parts
+                    a, b = rule.spec_index([ord(x) - cfg.qbase for x in ql], cf, cb)
+                nxt.append((nm, sq[a:b], ql[a:b]))
+            cur = nxt
             continue
         res = S.run_impl(c2, cur, d)
         if res["exit"] != 0:
@@ -1220,6 +1234,31 @@ def multicore_counts_part(ctx, presults, dist):
     finally:
         import shutil
         shutil.rmtree(d, ignore_errors=True)
+
+
+def minimal_report_rerun(kind, cfg, records, d):
+    """run one case as a subprocess with --report=minimal (and --json) in the empty directory d; returns (why, argv)"""
+    from . import runnerutil as R
+    from . import pairutil as P
+
+    for f in os.listdir(d):
+        if os.path.isfile(os.path.join(d, f)):
+            os.remove(os.path.join(d, f))
+    if kind == "single":
+        S.write_input(d, records, cfg.fasta)
+    else:
+        b, ext = cfg.base, cfg.base.ext()
+        if cfg.interleaved_in:
+            P.write_records(os.path.join(d, "in.inter." + ext), [r for pr in records for r in pr], b.fasta)
+        else:
+            P.write_records(os.path.join(d, "in.1." + ext), [pr[0] for pr in records], b.fasta)
+            P.write_records(os.path.join(d, "in.2." + ext), [pr[1] for pr in records], b.fasta)
+    argv = [a for a in cfg.argv(d) if a != "--report=minimal"]
+    res = R.run_cli(["--report=minimal"] + argv, d, 1, trace=False)
+    if res["exit"] != 0:
+        return None, argv
+    rp = os.path.join(d, "report.json")
+    return S.oracle_minimal_report({"stdout": res["stdout"], "report": json.load(open(rp)) if os.path.exists(rp) else None}, paired=(kind == "paired")), argv
 
 
 def minimal_report_part(ctx, results, presults, dist):
